@@ -13,7 +13,12 @@ package dcs
 //@   flags inline
 
 // ---- C20 -----------------------------------------------------------------------------------------------------
-//@ define adapterOK(o *OptimizationClusterAdapter) = o.cluster != nil && clusterOK(o.cluster)
+//@ define adapterOK(o *OptimizationClusterAdapter) = o.cluster != nil && clusterOK(o.cluster) && (forall k string :: has(o.clusterState, k) ==> o.clusterState[k] != nil && regd(o.cluster, k))
 //@ typeinv *app/dcs.OptimizationClusterAdapter adapterOK init app/dcs.NewOptimizationClusterAdapter
 //@ func app/dcs.NewOptimizationDCSAdapter
 //@   ensures C20.nonnil [C20]: result != nil
+//@ func app/dcs.NewOptimizationClusterAdapter
+//@   requires c20 [safety]: cluster != nil && clusterOK(cluster) && (forall k string :: has(clusterState, k) ==> clusterState[k] != nil && regd(cluster, k))
+//@   ensures C20.adapter [C20]: result != nil && adapterOK(result) && result.clusterState == clusterState && result.cluster == cluster
+//@ func (*app/dcs.OptimizationClusterAdapter).GetState
+//@   ensures C20.unknown_is_zero [C20]: !has(ocs.clusterState, hostname) ==> result.SlaveState == nil && result.ReplicationSettings == nil && !result.IsMaster
